@@ -69,21 +69,21 @@ def setup(case, sc):
         s = conv.build_source(src, sc)
         # the capacity is also what the converter itself derives from the machine's memory (and hands to the pipeline as queue_size)
         mem2 = 2 * case['cap'] * nT * nZ * 4
-        return (lambda out: conv.convert_segy(s['path'], out, rate, bs, detection=det2, mem_limit=mem2)), s, rate, bs
+        return (lambda out, mem_=mem2: conv.convert_segy(s['path'], out, rate, bs, detection=det2, mem_limit=mem_)), s, rate, bs
     bs = (8, 8, -1) if case['blocks'] else (4, 4, -1)
     b0 = bs[0]
     nI = {1: b0 - 1, 2: b0 + 1, 3: 2 * b0 + 1}[ps]
     nX, nZ = (5, 6) if not case['blocks'] else (9, 65)
     if route == 'numpy':
         D = gen.cube((nI, nX, nZ), 3)
-        return (lambda out: conv.convert_numpy(D, out, rate, bs)), {'data': D, 'geom': 'numpy'}, rate, bs
+        return (lambda out, mem_=None: conv.convert_numpy(D, out, rate, bs)), {'data': D, 'geom': 'numpy'}, rate, bs
     src = {'geom': '3d', 'shape': [nI, nX, nZ], 'il': [1, 1], 'xl': [1, 1], 'dt': 4000, 't0': 0, 'fmt': 5, 'ext': 0, 'cubeseed': 2, 'valkind': 'smooth',
            'hdr': {'seed': 4, 'nfields': 2, 'inside': True}, 'sorting': 2}
     s = conv.build_source(src, sc)
     # 'exhaustive' drives the pipeline exactly like 'heuristic' (no in-place table patch) but skips the slow first/last-trace analysis
     det = 'thorough' if route == 'segy-thorough' else 'heuristic' if route == 'segy-heuristic' else 'exhaustive'
     mem = 2 * case['cap'] * b0 * nX * nZ * 4
-    return (lambda out: conv.convert_segy(s['path'], out, rate, bs, reduce_iops=route == 'segy-iops', detection=det, mem_limit=mem)), s, rate, bs
+    return (lambda out, mem_=mem: conv.convert_segy(s['path'], out, rate, bs, reduce_iops=route == 'segy-iops', detection=det, mem_limit=mem_)), s, rate, bs
 
 
 def run_one(job, out, chooser, cap):
@@ -175,7 +175,24 @@ def run_case(case, ctx):
     sc = ctx['scratch']
     job, src, rate, bs = setup(case, sc)
     ref_path = sc.file('ref.sgz')
-    job(ref_path)                                # uninstrumented run with the real, free-running threads
+    # uninstrumented run with the real, free-running threads on a machine with plenty of memory (the library's default capacity): the file
+    # must not depend on the capacity.  It runs beside a generous watchdog - a pipeline that hangs for real must not hang the check
+    import threading
+    box = {}
+
+    def _ref():
+        try:
+            job(ref_path, None)
+            box['ok'] = True
+        except BaseException as e:  # noqa
+            box['err'] = e
+    th = threading.Thread(target=_ref, daemon=True)
+    th.start()
+    th.join(300)
+    if th.is_alive():
+        return {'inconclusive': 'the free-running reference conversion did not return within 300 s', 'counters': {'executions': 0}}
+    if 'err' in box:
+        raise box['err']
     ref = open(ref_path, 'rb').read()
     bad = []
     # the reference itself must be the right file (C01 / C03), otherwise "equal to the reference" means nothing
